@@ -64,11 +64,11 @@ func (j stateJSON) Coq() string {
 }
 
 type ReloadCase struct {
-	Comp    string   `json:"comp"`
-	KeyID   string   `json:"key_id"`
-	NoPath  bool     `json:"no_path,omitempty"`
-	Initial []Part   `json:"initial"`
-	New     *Content `json:"new"`
+	Comp    string    `json:"comp"`
+	KeyID   string    `json:"key_id"`
+	NoPath  bool      `json:"no_path,omitempty"`
+	Initial []Part    `json:"initial"`
+	New     *Content  `json:"new"`
 	Oracle  *Analysis `json:"oracle"`
 }
 
@@ -108,13 +108,13 @@ func initialFor(r *vf.Rand, keyID string, needCert bool) []Part {
 func reloadCorpus(comp string) []ReloadCase {
 	mk := func(keyID string, c *Content) ReloadCase { return ReloadCase{Comp: comp, KeyID: keyID, New: c} }
 	cs := []ReloadCase{
-		mk("", &Content{Mut: "none"}),                                                         // F1: empty file
-		mk("", &Content{Parts: []Part{{Fix: "ec256"}}, Mut: "trunc", Off: 20}),               // F1: truncated
-		mk("", &Content{Parts: []Part{{Fix: "cert_root"}}, Mut: "none"}),                     // F1: certificates only
-		mk("k1", &Content{Mut: "none"}),                                                       // empty + key id: error, no panic
-		mk("", &Content{Parts: []Part{{Fix: "rsa1024"}, {Fix: "cert_rsa1024"}, {Fix: "cert_root"}}, Mut: "none"}),   // F2
+		mk("", &Content{Mut: "none"}),                                                                             // F1: empty file
+		mk("", &Content{Parts: []Part{{Fix: "ec256"}}, Mut: "trunc", Off: 20}),                                    // F1: truncated
+		mk("", &Content{Parts: []Part{{Fix: "cert_root"}}, Mut: "none"}),                                          // F1: certificates only
+		mk("k1", &Content{Mut: "none"}),                                                                           // empty + key id: error, no panic
+		mk("", &Content{Parts: []Part{{Fix: "rsa1024"}, {Fix: "cert_rsa1024"}, {Fix: "cert_root"}}, Mut: "none"}), // F2
 		mk("", &Content{Parts: []Part{{Fix: "ec256"}, {Fix: "cert_ec256"}, {Fix: "cert_inter"}, {Fix: "cert_root"}, {Fix: "ec224"}}, Mut: "none"}), // F2 second entry
-		mk("", &Content{Parts: []Part{{Fix: "ec521"}}, Mut: "none"}),                         // F5 (httpsig only)
+		mk("", &Content{Parts: []Part{{Fix: "ec521"}}, Mut: "none"}),                                                                               // F5 (httpsig only)
 		mk("", &Content{Parts: []Part{{Fix: "ec521"}, {Fix: "cert_ec521_expired"}, {Fix: "cert_root"}}, Mut: "none"}),
 		mk("", &Content{Parts: []Part{{Fix: "ed25519"}}, Mut: "none"}),
 		mk("", &Content{Parts: []Part{{Fix: "ec384"}, {Fix: "cert_ec384_nods"}, {Fix: "cert_root"}}, Mut: "none"}), // no digitalSignature
